@@ -220,6 +220,21 @@ func runC09(seed int64, n int, dir string, tier string) *Report {
 			}
 			rep.Count("operands=same-identifiers-independent-attributes")
 		}
+		if i%6 == 2 {
+			// the same nodes up to what Equal ignores (order inside set-valued attributes, sub-second parts of
+			// dates): the second operand's value is still the one the union takes
+			a = g.NodeList(gen.Shape{MaxNodes: 4, MaxEdges: 4, WellFormed: true, Richness: 0.85, Pool: gen.IDPool[:6]})
+			b = clone(a)
+			for _, nd := range b.Nodes {
+				g.ShuffleSets(nd.ProtoReflect())
+				for _, ts := range []*timestamppb.Timestamp{nd.ReleaseDate, nd.BuildDate, nd.ValidUntilDate} {
+					if ts != nil {
+						ts.Nanos = (ts.Nanos + 1 + int32(g.Int(400000000))) % 1000000000
+					}
+				}
+			}
+			rep.Count("operands=equal-up-to-order-and-subseconds")
+		}
 		empty := &sbom.NodeList{}
 		wfcount := 0
 		for _, x := range []*sbom.NodeList{a, b, c} {
